@@ -17,6 +17,7 @@
 -/
 import Pk.Model.Manager
 import Pk.Proofs.MgrSettle
+import Pk.Proofs.MgrSettleStuck
 
 namespace Pk.Props.C09
 open Pk.Mgr
@@ -42,31 +43,52 @@ def EvOK (s : St) : Ev → Prop
 
 theorem jobsWF_init (convs : List String) :
     JobsWF { convs := convs, toconv := convs.map (fun c => (c, [])), cached := convs.map (fun c => (c, [])) } := by
-  sorry
+  simp [JobsWF]
 
 theorem jobsWF_step (s : St) (e : Ev) (st : Started) (h : JobsWF s) (hok : EvOK s e) :
     JobsWF (step s e st).1 := by
-  sorry
+  have _ := hok  -- not needed: the flags follow the job records for every event
+  exact Pk.Proofs.MgrSettle.jobsWF_step s e st h
 
 theorem nostuck_init (convs : List String) :
     NoStuck { convs := convs, toconv := convs.map (fun c => (c, [])), cached := convs.map (fun c => (c, [])) } := by
-  sorry
+  refine ⟨?_, ?_⟩
+  · rintro ⟨nt, hm, _⟩
+    cases hm
+  · intro c _ hp
+    exact absurd (Pk.Proofs.MgrSettle.sget_map_nil convs c) hp
+
+/-- the `refBy` back-references mirror the references: a tag that references an existing tag `r`
+    is recorded in `r.refBy` (one half of C11 `GraphWF.mirror`, proved there for the tag-API model) -/
+-- ADDED: `nostuck_step` is false without it. `delTag`/`updName` only look at `refBy` to decide that
+-- nobody references the tag; if `refBy` is empty although `tag/b` references `tag/a` (which has
+-- pending streams), deleting or renaming `tag/a` makes `tag/b` eligible while no tagging job runs.
+def RefByWF (s : St) : Prop :=
+  ∀ nt ∈ s.tags, ∀ r ∈ nt.2.refs, ∀ tr, sget s.tags r = some tr → nt.1 ∈ tr.refBy
+
+-- ADDED (with `RefByWF`): it holds initially
+theorem refByWF_init (convs : List String) :
+    RefByWF { convs := convs, toconv := convs.map (fun c => (c, [])), cached := convs.map (fun c => (c, [])) } := by
+  intro nt hm
+  cases hm
 
 /-- every transition re-establishes "pending work ⇒ a job is running" -/
-theorem nostuck_step (s : St) (e : Ev) (st : Started) (hw : JobsWF s) (h : NoStuck s) (hok : EvOK s e) :
-    NoStuck (step s e st).1 := by
-  sorry
+theorem nostuck_step (s : St) (e : Ev) (st : Started) (hw : JobsWF s) (h : NoStuck s) (hok : EvOK s e)
+    (hrb : RefByWF s) -- ADDED: see `RefByWF` (counterexample: tags a ↦ {refs [a], unc [0], refBy []}, b ↦ {refs [a], unc [0]}, event `delTag a`)
+    : NoStuck (step s e st).1 := by
+  have _ := hw; have _ := hok  -- not needed
+  exact Pk.Proofs.MgrSettle.nostuck_step s e st h hrb
 
 /-- a tagging job during which nothing was invalidated decides its tag completely -/
 theorem tagDone_clears (s : St) (st : Started) (name : String) (snap : Tag) (held result : List Nat)
     (ot : Tag)
     (hj : s.jTag = some (name, snap, held)) (ht : sget s.tags name = some ot) (hd : ot.defn = snap.defn)
     (hm : s.upd = [] ∧ s.rst = [] ∧ s.add = []) :
-    ∃ t, sget (step s (.tagDone name result) st).1.tags name = some t ∧ t.unc = [] := by
-  sorry
+    ∃ t, sget (step s (.tagDone name result) st).1.tags name = some t ∧ t.unc = [] :=
+  Pk.Proofs.MgrSettle.tagDone_clears s st name snap held result ot hj ht hd hm
 
 /-- the merge eligibility scan terminates with an offset inside the list -/
-theorem mergeOffset_bound (s : St) (i : Nat) (h : mergeOffset s = some i) : i < s.idx.length := by
-  sorry
+theorem mergeOffset_bound (s : St) (i : Nat) (h : mergeOffset s = some i) : i < s.idx.length :=
+  Pk.Proofs.MgrSettle.mergeOffset_bound s i h
 
 end Pk.Props.C09
